@@ -21,6 +21,16 @@ def _attr_call(n, attrs):
     return isinstance(n, ast.Call) and isinstance(n.func, ast.Attribute) and n.func.attr in attrs
 
 
+SECOND_CALL = '''
+def second_call(e1: bool, n1: bool, ne1: bool, nn1: bool, e2: bool, n2: bool, ne2: bool, nn2: bool, restart: bool) -> bool:
+    """
+    post: _
+    """
+    return second_call_ok(e1, n1, ne1, nn1, e2, n2, ne2, nn2, restart)
+
+'''
+
+
 def hook_paths(rep: C.Report) -> None:
     """Ob3 (E3): per template call (one iteration of expand_recurse's cookie loop):
     a) template_fn is called at most once, post_template_fn at most once;
@@ -156,9 +166,11 @@ def run(rep: C.Report) -> None:
             H,
             {
                 "^selection_rule": dict(name="Ob1 selection rule: expanded iff existing, not excluded and (selected or flagged)", functions=["core.py:Wtp.check_template_need_expand"], bounds="all combinations of page existence, need_pre_expand, None-ness and membership for both selection sets (64 cases, forks)"),
+                "^second_call": dict(name="Ob4 the selection is taken per call: a second expand() on the same page is not influenced by the first call's selection", functions=["core.py:Wtp.expand", "core.py:Wtp.check_template_need_expand"], bounds="all combinations of None-ness/membership of both selection sets for both calls, with or without start_page in between (solver-driven case split, real expand on a real store)"),
                 "^unexpanded_": dict(name="Ob2 expand_parserfns=False / expand_invoke=False re-emit the call and leave the path balanced", functions=["core.py:Wtp.expand.expand_recurse.expand_parserfn (AST slice)"], bounds="0..2 symbolic arguments <= 2 chars, 4 function names"),
             },
-            timeout=60 if quick else 200,
+            timeout=90 if quick else 300,
+            src=open(H).read() + "\n" + SECOND_CALL,
             twins=True,
             twin_timeout=20,
         )
